@@ -252,6 +252,13 @@ def build_catalogue():
                 f = syn(name, on=cs + extra, radix=r, prefix=pfx, suffix=sfx, floats=("f64", "f32"), ints=all_ints if (not cs and not extra) else ("i32", "u64"))
                 ps.append(f)
                 cat.append(f)
+    # base prefix / suffix without required digits (a bare prefix at the end of the buffer); a group of their own:
+    # the partial/complete relations (C11) and totality (C10) quantify over them, the reference grammar of C12 does not
+    for (r, pfx, sfx, tag) in [(16, ord("x"), 0, "Px"), (10, ord("d"), 0, "Pd"), (16, ord("x"), ord("h"), "PxSh"), (10, 0, ord("d"), "Sd")]:
+        f = syn(f"SPN_R{r}_{tag}_NOREQ", off=("required_mantissa_digits", "required_exponent_digits"), radix=r, prefix=pfx, suffix=sfx, floats=("f64", "f32"), ints=("i32", "u64"))
+        f.group = "prefix_noreq"
+        f.wf = []
+        cat.append(f)
     # hex float with prefix (C-style) and mixed base
     f = syn("SP_HEXFLOAT_Px", radix=16, base=2, eradix=10, prefix=ord("x"), floats=("f64", "f32"), ints=())
     cat.append(f)
